@@ -38,6 +38,8 @@ REQUIRED = {
         'prefs:relabelled-runs': 1000,
         'intervals:instances': 200,
         'datasets-with-rejection': 3,
+        'datasets-with-rise-having-3+-candidate-storms': 5,
+        'datasets-with-storm-having-3+-candidate-rises': 5,
         'datasets-with-displacement': 3,
         'datasets-with-strict-preferences': 50,
         'datasets-with-tied-preferences': 20,
